@@ -225,4 +225,38 @@ def run(pid: str, tier: str) -> int:
                        f'{k}={x.event[k]}' for k in ('seat', 'call', 'card', 'variant', 'alert',
                                                      'notation', 'n', 'dealer', 'vul', 'ns')
                        if k in x.event)[:160])
+    # ---- the messages in their place: short sessions of the real table manager
+    # with four real clients (board ids that are not numbers, numbers other than
+    # the board's position, long team names): every line one end builds there
+    # must be understood by the other end
+    from . import table as tb
+    import re as _re
+    sjobs = []
+    for k in range(6 if quick else 60):
+        boards = tb.rand_boards(r, 1 + k % 2)
+        ids = (['test1', '12', 'x.y', '0012', 'Board number 3', '7'][k % 6], 'b-2')
+        boards = [(dl, d, v, ids[j], dda) for j, (dl, d, v, _i, dda) in enumerate(boards)]
+        cfg = {'boards': boards, 'seed': r.randrange(1 << 30),
+               'styles': [{'auction': 'short' if k % 2 else 'weak',
+                           'passout_boards': {1} if k % 3 == 0 else set(),
+                           'ppass': 0.5, 'play': 'legal'}] * 4,
+               'vary': k % 2 == 0, 'policy_spec': tb.POLICIES[k % len(tb.POLICIES)],
+               'teams': ('N' * 130, 'E' * 140) if k % 3 == 1 else ('Alpha', 'Beta b')}
+        sjobs.append((f'c19s{k}', cfg, 'normal', None))
+    sevents = pmap(tb.run_job, sjobs)
+    chk.extra['sessions'] = len(sevents)
+    for e in sevents:
+        chk.count(('session', e['tid']))
+    srej = validate_traces(chk, 'TableTrace', sevents,
+                           'sessions: what one end builds the other end understands', heap='4g')
+    for x in srej:
+        body = x.clause.split(':fail=', 1)[-1]
+        mine = [c for c in body.split(',')
+                if c.startswith(('clients-complete', 'client-stream', 'stream-', 'complete-'))]
+        if mine:
+            chk.violation('message:session:' + _re.sub(r'@\d+', '', ','.join(mine))[:160],
+                          f'session {x.tid} (board ids {[b["id"] for b in x.event["boards"]]}): clause '
+                          f'"{x.clause}"; clients {x.event["info"]["client_exc"]}, main '
+                          f'{x.event["info"]["main_exc"]}',
+                          {'kind': 'rejected-session', 'clause': x.clause, 'event': x.event})
     return chk.finish()
